@@ -606,6 +606,7 @@ def check(run, replay):
         return ">2000"
     first_bad = None
     nviol = 0
+    by_heur = {}
     for c, v in zip(cases, verdicts):
         n = len(c["cols"][0])
         bump(hist["rows_bucket"], bucket(n))
@@ -624,6 +625,7 @@ def check(run, replay):
         run.count_case(canon, v["nontrivial"])
         if v["bad"]:
             nviol += 1
+            bump(by_heur, c["heuristic"])
             if first_bad is None:
                 first_bad = (c, v)
     run.oblige("correspondence:every emitted triplet = prescribed value on the model's codes", nviol == 0,
@@ -646,8 +648,9 @@ def check(run, replay):
         b0 = bestv["bad"][0]
         run.violation("counterexample", "correspondence: mixed_rank_graph triplet vs prescribed heuristic value",
                       case=best, impl=b0.get("row", b0.get("impl")), model=b0.get("expected"), clause=b0["clause"],
-                      extra={"cases_disagreeing": nviol, "all_bad_rows_of_this_case": bestv["bad"][:10]})
+                      extra={"cases_disagreeing": nviol, "disagreeing_by_heuristic": by_heur, "all_bad_rows_of_this_case": bestv["bad"][:10]})
     hist.update(stats)
+    hist["cases_disagreeing_by_heuristic"] = by_heur
     run.cov["input_distribution"] = hist
     run.cov["exhaustive"] = False
     run.cov["tolerances"] = {"MI (sklearn)": "1e-9 * max(1, |v|)",
